@@ -34,8 +34,12 @@ CORE_SOURCES = [
 
 FLAVOURS = {
     "plain": ["-O1", "-g0"],
-    "asan": ["-O1", "-g", "-fsanitize=address,undefined", "-fno-sanitize-recover=all",
-             "-fno-omit-frame-pointer"],
+    # signed-integer-overflow and float-cast-overflow are excluded on purpose: wrap-around of int/long arithmetic and out-of-range
+    # float->int casts do not crash the interpreter (the properties speak of signals, memory errors and raw exceptions); the values
+    # they produce on this target are part of the evaluator model (wrap32/wrap64/floatToInt32). INT_MIN / -1 and % -1 still trap in
+    # hardware (SIGFPE) and are reported as CRASH.
+    "asan": ["-O1", "-g", "-fsanitize=address,undefined", "-fno-sanitize=signed-integer-overflow,float-cast-overflow",
+             "-fno-sanitize-recover=all", "-fno-omit-frame-pointer"],
 }
 
 
